@@ -301,7 +301,8 @@ static std::string op_go(const std::string& rest)
            " restored=" + std::to_string(restored ? 1 : 0) + " depthcap=" + std::to_string(search->_search_depth) +
            " nroot=" + std::to_string(search->_root_moves.size()) +
            " root0=" + (search->_root_moves.empty() ? std::string("-") : pos.uci(search->_root_moves[0])) +
-           " pvnodes=" + std::to_string(g_pv_checked) + " badpv=" + std::to_string(g_pv_bad);
+           " pvnodes=" + std::to_string(g_pv_checked) + " badpv=" + std::to_string(g_pv_bad) +
+           " alloc=" + std::to_string((long long)search->_search_time);
     if (g_pv_bad) { std::string e = g_pv_bad_example; for (char& ch : e) if (ch == ' ') ch = '_'; out += " badpv_at=" + e; }
     return out;
 }
